@@ -1,5 +1,4 @@
 #!/bin/bash
 # eval_all.sh : re-evaluate every seeded change and every hand-written mutant with the current machinery
-rm -f /tmp/mutant-results*.txt
-/verif/tools/eval_mutants.sh /verif/seeded/* > /tmp/mutant-results-final.txt 2>&1
+/verif/tools/eval_mutants.sh /verif/seeded/*/ > /tmp/mutant-results-final.txt 2>&1
 /verif/tools/eval_own_mutants.sh /tmp/wt-mine > /tmp/own-results-final.txt 2>&1
